@@ -12,5 +12,6 @@ import LyModel.Props.C09
 #print axioms LyModel.Props.C09.implemented_targets_compiled
 #print axioms LyModel.Props.C09.later_load_differs
 #print axioms LyModel.Props.C09.later_load_same
+#print axioms LyModel.Props.C09.imported_rev_restored
 #print axioms LyModel.Props.C09.nested_failure_leaves_debris
 #print axioms LyModel.Props.C09.nested_failure_reverted
